@@ -844,3 +844,23 @@ def continuation_same_line(run, R="TAB-op"):
                 bad.append("%s (%s)" % (f.loc(t["span"]), name.rsplit("::", 1)[-1]))
     run.check(n >= 3 and not bad, R, R + "|continuation|same-line", "-", "every continuation of an expression (next operator, next `.name`) is preceded by a line-break test in the same round (%d site(s))" % n,
               "the expression parser continues an expression without asking for a line break first, or asks only once before its loop (%s): an operator or a dotted name at the start of the next line is taken as part of the expression on this line" % (", ".join(bad) or "continuation sites not found"))
+
+
+def keyword_whole_identifier(run, R="TAB-op"):
+    """`asm`, `true` and `false` are keywords only as whole words: the tokenizer first takes the longest run of identifier
+    characters and then compares that text with the keyword table - the table is not consulted before the identifier has been
+    scanned, so `true1`, `asm16` or `falsehood` are ordinary names"""
+    import json
+    f = run.anchor(R, "syntax::token::check_for_identifier")
+    if f is None:
+        return
+    scans = [bi for bi, t in f.calls() if (t.get("resolved") or t.get("callee") or "").endswith("CharWalker::<'_>::consume_while") or (t.get("resolved") or t.get("callee") or "").endswith("::consume_while")]
+    uses = []
+    for b in sorted(f.reachable()):
+        blk = f.blocks[b]
+        txt = json.dumps(blk["stmts"]) + json.dumps(blk["term"].get("args") if blk["term"]["k"] == "call" else "")
+        if "KEYWORDS" in txt:
+            uses.append(b)
+    ok = bool(scans) and bool(uses) and all(any(f.dominates(s_, u) and s_ != u for s_ in scans) for u in uses)
+    run.check(ok, R, R + "|keyword|whole-identifier", f.loc(), "the keyword table is consulted only after the whole identifier was scanned (%d use(s))" % len(uses),
+              "check_for_identifier looks at the keyword table before it has scanned the whole identifier: a name that starts with a keyword and goes on with a digit or letter (`true1`, `asm16`) is split into a keyword and a rest, so its declaration and its uses stop resolving" if uses else "mechanism not found: the keyword table in check_for_identifier")
